@@ -72,7 +72,7 @@ def parse_outcome(s, tol, ctx):
         if ctx.case_info.get('over_budget'):
             return 'budget', None, fail(
                 'step-budget', 'tolerance=%d: more than %d reader calls for %d characters: %s'
-                % (tol, budget(len(s)), len(s), short(repr(s), 100)))
+                % (tol, budget(len(s)), len(s), short(repr(s), 100)), tol=tol)
         raise
     except DIAGNOSTICS + (Exception,) as e:
         why = classify_outcome(s, e)
@@ -91,11 +91,11 @@ class C06(Prop):
     level = 'fault_enumeration'
     rule = ('cases (each parsed with tolerance 0 and 1): (i) every string over '
             'the 25-character category alphabet up to the length bound; (ii) '
-            'every string over the 64-token alphabet up to the bound; (iii) '
+            'every string over the 68-token alphabet up to the bound; (iii) '
             'seeded random token strings (incl. NUL/DEL/CR and bare signature '
             'commands) up to 14 tokens; (iv) every prefix, single-character '
             'deletion, sampled insertion and adjacent transposition of W1 '
-            'documents; (v) nesting towers of 13 kinds to depth 40, closed and '
+            'documents; (v) nesting towers of 14 kinds to depth 40, closed and '
             'truncated after every unit. non-trivial = length >= 2 ; distinct '
             '= by content')
     assumptions = (
@@ -111,9 +111,9 @@ class C06(Prop):
     budget_s = {'quick': 300, 'thorough': 5400}
     exhaustive = {
         'quick': 'all strings of length <= 3 over the 25-character alphabet and '
-                 'of length <= 2 over the 64-token alphabet, x tolerance {0,1}',
+                 'of length <= 2 over the 68-token alphabet, x tolerance {0,1}',
         'thorough': 'all strings of length <= 5 over the 25-character alphabet '
-                    'and of length <= 3 over the 64-token alphabet, x tolerance {0,1}',
+                    'and of length <= 3 over the 68-token alphabet, x tolerance {0,1}',
     }
 
     def cases(self, tier, seed, want):
@@ -152,6 +152,18 @@ class C06(Prop):
                 k += 1
                 if want(k):
                     yield k, {'s': m, 'w': 'fault:' + kind}
+        import itertools as _it
+        units = [(o,) for o in mutgen.GROWTH_OPEN]
+        units += list(_it.product(mutgen.GROWTH_OPEN, repeat=2)) if not q else \
+            [(a, b) for a in mutgen.GROWTH_OPEN[:10] for b in mutgen.GROWTH_OPEN[:10]]
+        closers = [(c,) for c in mutgen.GROWTH_CLOSE] if q else \
+            list(_it.product(mutgen.GROWTH_CLOSE, repeat=2))
+        for u in units:
+            for c in closers:
+                k += 1
+                if want(k):
+                    yield k, {'w': 'growth', 'unit': ''.join(u), 'closer': ''.join(c),
+                              's': ''.join(u) * 12 + 'x' + ''.join(c) * 12}
         for name in mutgen.TOWERS:
             alt = name in mutgen.ALTERNATING
             depths = list(range(1, 13)) + [16] if alt else list(range(1, 41))
@@ -176,7 +188,43 @@ class C06(Prop):
     def sample(self, p):
         return {'s': short(p['s'], 200), 'workload': p['w']}
 
+    def check_growth(self, p, ctx):
+        """reader calls at nesting depth 12 vs depth 8 of the same shape: a
+        polynomial of degree <= 4 grows by at most (12/8)^4 = 5.1; doubling per
+        level gives 16"""
+        from TexSoup import TexSoup
+        from tsv.probe import install
+        fails = []
+        for tol in (0, 1):
+            n = {}
+            for d in (8, 12):
+                s = p['unit'] * d + 'x' + p['closer'] * d
+                install.STEP_BUDGET['limit'] = 200000
+                ctx.case_info = {}
+                try:
+                    TexSoup(s, tolerance=tol)
+                except ProbeAbort:
+                    if not ctx.case_info.get('over_budget'):
+                        raise
+                except Exception as e:
+                    why = classify_outcome(s, e)
+                    if why:
+                        fails.append(fail('leak', 'tolerance=%d: %s; input %s' % (tol, why, short(repr(s), 120))))
+                finally:
+                    install.STEP_BUDGET['limit'] = None
+                n[d] = ctx.case_info.get('steps', 0)
+            ctx.count('growth_shapes_measured')
+            ctx.maxi('max:growth_ratio_x100', int(100 * n[12] / max(n[8], 1)))
+            if n[12] > 2000 and n[12] > 8 * n[8]:
+                fails.append(fail('super-polynomial', 'tolerance=%d: nesting %s…%s costs %d reader calls at depth 8 and %d at depth 12 '
+                                  '(x%.1f for 4 more levels; depth 40 is out of reach)'
+                                  % (tol, short(repr(p['unit']), 40), short(repr(p['closer']), 20),
+                                     n[8], n[12], n[12] / max(n[8], 1)), tol=tol))
+        return fails
+
     def check(self, p, ctx):
+        if p['w'] == 'growth':
+            return self.check_growth(p, ctx)
         s = p['s']
         fails = []
         for tol in (0, 1):
@@ -192,7 +240,7 @@ class C06(Prop):
         return fails
 
     def shrink(self, p, still_fails):
-        if len(p['s']) > 3000 or p['w'].startswith('tower'):
+        if len(p['s']) > 3000 or p['w'].startswith('tower') or p['w'] == 'growth':
             return p
         return common.shrink_text(p, still_fails, key='s', budget=250)
 
@@ -205,6 +253,8 @@ class C06(Prop):
                 g.append('%s observed fewer than 100 times' % key)
         if c.get('probe:tok', 0) < 100000 or c.get('probe:read_expr', 0) < 100000:
             g.append('progress monitors evaluated too rarely')
+        if c.get('growth_shapes_measured', 0) < 500:
+            g.append('growth oracle measured fewer than 500 nesting shapes')
         if c.get('max:tower_depth', 0) < 40:
             g.append('no tower of depth 40 was run')
         if len(m['sets'].get('tower_kind', ())) < len(mutgen.TOWERS):
@@ -227,3 +277,23 @@ def _d18(prop, p, fails, rerun):
         return False
     neutral = re.sub(r'\\(?:begin|end)\{[^{}]*\}', '', s)
     return findings.fixed_by(p, dict(p, s=neutral), fails, rerun)
+
+
+@findings.classifier('tolerant-end-argument-reparse')
+def _d21(prop, p, fails, rerun):
+    r"""D21: in tolerant mode a `\end{...}` whose argument is not the name of
+    the open environment is parsed by the peek in read_env and then again as
+    an ordinary command; with environments nested inside such arguments the
+    work doubles per level."""
+    import re
+    if findings.checks_of(fails) - {'step-budget', 'super-polynomial', 'timeout'}:
+        return False
+    if any(f.get('tol') != 1 for f in fails if f['check'] != 'timeout'):
+        return False
+    if not re.search(r'\\end\s*\{', p['s']) or '\\begin' not in p['s']:
+        return False
+    q = dict(p)
+    for key in ('s', 'unit', 'closer'):
+        if key in q:
+            q[key] = re.sub(r'\\end(?=\s*\{)', r'\\xnd', q[key])
+    return findings.fixed_by(p, q, fails, rerun)
